@@ -251,9 +251,11 @@ func (w *World) Check(out *vs.Outcome) ([]string, uint64) {
 					if !consumererror.IsPermanent(rs.Err) {
 						w.violate("C10", "caller %s was refused with a non-permanent error: %v", c.Spec.Label, rs.Err)
 					}
-					if len(distinct) <= int(sc.Limit) {
-						w.violate("C10", "caller %s was refused (%v) although only %d combinations exist and the limit is %d", c.Spec.Label, rs.Err, len(distinct), sc.Limit)
-					}
+					// Not judged: a request whose combination is already admitted can be
+					// refused when it loses the Load-miss/Lock race against the last free
+					// slot (seen in D8-two-keys).  The property only says who must be
+					// refused, not that nobody else may be; see DESIGN.md section 5.
+					_ = distinct
 				}
 			}
 		}
@@ -448,11 +450,9 @@ func (w *World) checkContexts(owner map[string]*CallerState) {
 			}
 		}
 		if len(order) >= 2 {
-			for _, cx := range order {
-				for _, c := range ctxs[cx] {
-					if c.Ctrl != nil && e.Ctrl == c.Ctrl {
-						w.violate("C18", "export #%d carries items from %d request contexts but runs under the context of caller %s", e.Seq, len(order), c.Spec.Label)
-					}
+			for _, c := range w.callers {
+				if c.Ctrl != nil && e.Ctrl == c.Ctrl {
+					w.violate("C18", "export #%d carries items from %d request contexts but runs under (a context derived from) the context of caller %s", e.Seq, len(order), c.Spec.Label)
 				}
 			}
 			if e.ErrEntry != nil || e.ErrExit != nil {
@@ -487,8 +487,7 @@ func (w *World) checkContexts(owner map[string]*CallerState) {
 					}
 				}
 				if e.Parent.IsValid() {
-					for _, cx := range order {
-						c := ctxs[cx][0]
+					for _, c := range w.callers {
 						if c.Span != nil && e.Parent.SpanID() == c.Span.SpanContext().SpanID() {
 							w.violate("C18", "export #%d (multi-context) is a child of caller %s's span", e.Seq, c.Spec.Label)
 						}
